@@ -15,7 +15,7 @@ def run():
         r = vlib.model_check("WakeImpl", "WakeImpl_%s.cfg" % v, expect_ok=False, timeout=600)
         chk.add_model("WakeImpl/variant %s (must violate)" % v, r, note="violated: %s" % r["violated"])
     if chk.thorough():
-        chk.add_model("WakeImpl (3 rounds, 3 helpers, 2 duplicate wakers)",
+        chk.add_model("WakeImpl (3 workers, 2 rounds, 2 helpers, 2 duplicate wakers)",
                       vlib.model_check("WakeImpl", "WakeImpl_big.cfg", timeout=3000))
     wake, sync, sem = vlib.build_harness(["wake_harness", "sync_harness", "sem_harness"])
     n = 4 if chk.thorough() else 1
